@@ -3,7 +3,7 @@ import json, os, re, struct, sys
 import cybuild
 
 TITLE = "Compile-time constants keep their exact Python values"
-EXTRACTS = ["Consts"]
+EXTRACTS = ["Consts", "ConstNames"]
 
 # ---- switches between the code as it is and the repaired code (proposed_fixes/C09-*.diff) ----
 # After the orchestrator applies proposed_fixes/C09-float_zero_sign_merged.diff (make_dedup_key: both key
@@ -264,6 +264,333 @@ def classify_merge(t1, t2):
 
 
 # ------------------------------------------------------------------------------------------------
+# numeric-constant pool scenarios (names / #defines / slots): generator
+# ------------------------------------------------------------------------------------------------
+NAME_LIMIT, KEEP = 42, 18        # compared with the source and the model by check_name_consts
+
+
+def slen(text, ty="i"):
+    """length of the sanitised effective spelling (what new_num_const_cname measures)"""
+    return len(text) + 3 * text.count("-") + (1 if ty == "l" else 0)
+
+
+def vary(rng, text, positions, k, alphabet):
+    """k distinct variants of text that differ from it only at the given character positions"""
+    out, seen, tries = [], set(), 0
+    while len(out) < k and tries < 50 * k:
+        tries += 1
+        t = list(text)
+        for pos in positions:
+            t[pos] = rng.choice(alphabet)
+        t = "".join(t)
+        if t not in seen:
+            seen.add(t)
+            out.append(t)
+    return out
+
+
+def hex_text(rng, nd, neg=False):
+    d = rng.choice("123456789abcdef") + "".join(rng.choice("0123456789abcdef") for _ in range(nd - 1))
+    return ("-" if neg else "") + "0x" + d
+
+
+def dec_text(rng, nd, neg=False):
+    d = rng.choice("123456789") + "".join(rng.choice("0123456789") for _ in range(nd - 1))
+    return ("-" if neg else "") + d
+
+
+def float_text(rng, total):
+    """a float spelling of about `total` sanitised characters: digits . digits [e[+-]digits]"""
+    exp = ""
+    r = rng.random()
+    if r < 0.6:
+        exp = rng.choice("eE") + rng.choice(["", "+", "-"]) + "".join(rng.choice("0123456789") for _ in range(rng.choice([1, 2, 3, 3, 12, 19])))
+    n = max(2, total - slen(exp) - 1)
+    a = rng.randrange(1, n)
+    return "".join(rng.choice("0123456789") for _ in range(a)) + "." + "".join(rng.choice("0123456789") for _ in range(n - a)) + exp
+
+
+def sanitized(text, ty="i"):
+    return (text + ("L" if ty == "l" else "")).replace(".", "_").replace("+", "_").replace("-", "neg_")
+
+
+def family(rng, ty, base, k, where):
+    """k spellings sharing everything with `base` except characters
+       where = 'mid'  : strictly between the kept head and tail (same abbreviated name)
+               'head' : the last kept head character          'head+1': the first dropped one
+               'tail' : the first kept tail character         'tail-1': the last dropped one
+       positions are taken in the sanitised text and mapped back (base has its '-' only in front
+       or in the exponent, outside the varied zone)"""
+    off = 3 if base.startswith("-") else 0          # '-' -> 'neg_' shifts positions by 3
+    n = slen(base, ty)
+    def back(i):
+        return i - off
+    lo, hi = KEEP, n - KEEP - 1                      # dropped zone [lo, hi] in sanitised positions
+    if where == "mid":
+        cand = list(range(lo, hi + 1))
+        pos = rng.sample(cand, min(len(cand), rng.choice([1, 2, 5]))) if cand else []
+    elif where == "head":
+        pos = [KEEP - 1]
+    elif where == "head+1":
+        pos = [KEEP]
+    elif where == "tail":
+        pos = [n - KEEP]
+    else:
+        pos = [n - KEEP - 1]
+    alphabet = "0123456789abcdef" if "x" in base[:3] else "0123456789"
+    pos = [back(i) for i in pos if 0 <= back(i) < len(base) and base[back(i)] in alphabet]
+    if not pos:
+        return [base]
+    return [base] + [t for t in vary(rng, base, pos, k, alphabet) if t != base and not t.lstrip("-").startswith("00")]
+
+
+SMALL_INTS = [0, 1, -1, 5, 127, 128, -128, -129, 255, 32767, 32768, -32768, -32769, 2 ** 31 - 1, 2 ** 31, -2 ** 31,
+              -2 ** 31 - 1, 10 ** 13, 10 ** 13 + 1, M63 - 1, -M63, M63, -M63 - 1, 2 ** 64, -2 ** 64]
+
+
+def int_spelling(v):
+    """what IntNode.generate_evaluation_code hands to get_py_int (repaired threshold or not: both
+    spellings are legal pool keys)"""
+    return hex(v) if abs(v) > 10 ** 13 else str(v)
+
+
+def pool_scenarios(rng, quick):
+    """list of (stratum, events); an event is ["R", ty, text] or ["U", sep, pre, post]"""
+    S = []
+    pint, pfloat = "__pyx_int_", "__pyx_float_"
+
+    def fmt_of(ty, text):
+        v = sanitized(text, ty)
+        return [0, (pfloat if ty == "f" else pint) + "large", "_" + v[:KEEP] + "_xxx_" + v[-KEEP:]]
+
+    def mix(events, n_small=4, n_float=2):
+        ev = list(events)
+        for v in rng.sample(SMALL_INTS, n_small):
+            ev.insert(rng.randrange(len(ev) + 1), ["R", "i", int_spelling(v)])
+        for _ in range(n_float):
+            ev.insert(rng.randrange(len(ev) + 1), ["R", "f", float_text(rng, rng.choice([3, 5, 9, 20]))])
+        return ev
+
+    # 1. the length threshold, every kind of spelling, lengths 40..45 around "len(value) > 42"
+    for ty, mk in [("i", lambda n: hex_text(rng, n - 2)), ("i", lambda n: hex_text(rng, n - 6, True)),
+                   ("i", lambda n: dec_text(rng, n)), ("i", lambda n: dec_text(rng, n - 4, True)),
+                   ("l", lambda n: hex_text(rng, n - 3)), ("l", lambda n: dec_text(rng, n - 1)),
+                   ("f", lambda n: float_text(rng, n))]:
+        for n in (40, 41, 42, 43, 44, 45):
+            base = mk(n)
+            if ty != "f":
+                assert slen(base, ty) == n, (ty, base, n)
+            ev = []
+            for where in ("mid", "head", "head+1", "tail", "tail-1"):
+                for t in family(rng, ty, base, 2, where):
+                    ev.append(["R", ty, t])
+            ev.append(["R", ty, base])                      # repeated key
+            if ty == "l":
+                ev.append(["R", "i", base])                 # the int key of the same text
+                ev.append(["R", "i", base[:-1] if slen(base[:-1]) > 2 else base])
+            S.append(("threshold/%s/len%d" % (ty, n), mix(ev)))
+    # 2. many constants with one abbreviated name: counters 2..k (two-digit counters too)
+    for k in ([3, 12] if quick else [2, 3, 5, 12, 25, 101]):
+        for neg in (False, True):
+            base = hex_text(rng, rng.choice([41, 50, 64, 200]), neg)
+            ev = [["R", "i", t] for t in family(rng, "i", base, k, "mid")]
+            S.append(("collide/hex%s/k%d" % ("-neg" if neg else "", k), mix(ev)))
+    # 3. powers of two and shifted ones: same head and tail, different lengths
+    ev = [["R", "i", hex(1 << b)] for b in (160, 164, 200, 204, 256, 512, 1024)]
+    ev += [["R", "i", hex(-(1 << b))] for b in (148, 152, 200, 204, 256, 512)]
+    ev += [["R", "l", hex(1 << b)] for b in (200, 256)]
+    rng.shuffle(ev)
+    S.append(("collide/powers-of-two", mix(ev)))
+    # 4. floats with one abbreviated name (long literals), exponent signs in the kept tail
+    for _ in range(2 if quick else 12):
+        base = float_text(rng, rng.choice([43, 44, 50, 80]))
+        ev = [["R", "f", t] for t in family(rng, "f", base, 4, "mid")]
+        z = "0." + "0" * rng.choice([41, 45, 60])
+        ev += [["R", "f", z + "15"], ["R", "f", z + "015"], ["R", "f", z + "0015"], ["R", "f", "-" + z + "15"],
+               ["R", "f", z + "15e+300"], ["R", "f", z + "15e-300"], ["R", "f", z + "15e300"]]
+        # an int and a float whose abbreviated parts agree (prefixes keep them apart)
+        d = dec_text(rng, 50)
+        ev += [["R", "i", d], ["R", "f", d[:30] + "." + d[31:]], ["R", "f", d[:29] + "." + d[30:]]]
+        rng.shuffle(ev)
+        S.append(("collide/float", mix(ev, n_float=3)))
+    # 5. the registry is shared: foreign unique_const_cname calls before / between the requests,
+    #    including ones that take the very names the requests would get (the loop has to skip them)
+    for _ in range(6 if quick else 60):
+        ty = rng.choice("iil")
+        base = hex_text(rng, rng.choice([41, 48, 70]), rng.random() < 0.3)
+        fam = family(rng, ty, base, rng.choice([2, 3, 4]), "mid")
+        f = fmt_of(ty, base)
+        ev = []
+        pre = rng.sample([2, 3, 4, 5, ""], rng.choice([1, 2, 3]))
+        for c in pre:                 # occupy "large<c>_A_xxx_B" as a name of its own
+            ev.append(["U", 0, f[1] + str(c), f[2]])
+        if rng.random() < 0.5:
+            ev.append(["U"] + f)      # the same format as the request's
+        for t in fam:
+            ev.append(["R", ty, t])
+            if rng.random() < 0.4:
+                ev.append(["U", 1, rng.choice(["pyx_k", "n_s_x", "tuple", f[1] + f[2]]), ""])
+            if rng.random() < 0.3:
+                ev.append(["U"] + f)
+        ev.append(["R", ty, fam[0]])
+        S.append(("foreign-calls", mix(ev, 2, 1)))
+    # 6. random pools
+    for _ in range(10 if quick else 300):
+        ev = []
+        for _ in range(rng.randrange(2, 7)):
+            ty = rng.choice("iiilf")
+            n = rng.choice([5, 20, 41, 42, 43, 44, 60, 120])
+            if ty == "f":
+                base = float_text(rng, n)
+            else:
+                kind = rng.randrange(4)
+                body = max(1, n - [2, 6, 0, 4][kind] - (1 if ty == "l" else 0))
+                base = [lambda: hex_text(rng, body), lambda: hex_text(rng, body, True),
+                        lambda: dec_text(rng, body), lambda: dec_text(rng, body, True)][kind]()
+            where = rng.choice(["mid", "mid", "head", "head+1", "tail", "tail-1"])
+            for t in family(rng, ty, base, rng.choice([1, 2, 3]), where):
+                ev.append(["R", ty, t])
+        rng.shuffle(ev)
+        ev += [list(e) for e in rng.sample(ev, min(2, len(ev)))]
+        S.append(("random", mix(ev, rng.choice([0, 3, 8]), rng.choice([0, 2]))))
+    return S
+
+
+def ev_tokens(ev):
+    if ev[0] == "R":
+        return ["R", ev[1], hexs(ev[2])]
+    return ["U", str(int(ev[1])), hexs(ev[2]), hexs(ev[3])]
+
+
+def classify_pool(events, i, j=None):
+    """finding class from the input: which kinds of keys are involved"""
+    tys = {events[i][1]} | ({events[j][1]} if j is not None else set())
+    big = slen(events[i][2], events[i][1]) > NAME_LIMIT
+    kind = "float" if tys == {"f"} else "int" if "f" not in tys else "mixed"
+    return "num_const_%s_%s" % ("abbreviated" if big else "short", kind)
+
+
+def check_pools(ctx, scen, impl, mlines, name_consts, mconsts):
+    # constants of the naming function: source text vs model vs this generator
+    w = mconsts.split()
+    model_c = {"int": unhex(w[0]), "float": unhex(w[1]), "limit": [w[2]], "head": [w[3]], "tail": [w[3]]}
+    ctx.case("names/constants", name_consts, sig=("nameconsts",))
+    if name_consts != model_c or int(w[2]) != NAME_LIMIT or int(w[3]) != KEEP:
+        ctx.corr_break("constnames:constants(new_num_const_cname source)", "prefixes, len(value) > N, value[:K], value[-K:]",
+                       name_consts, model_c)
+    for (stratum, events), imp, line in zip(scen, impl, mlines):
+        inp = {"events": events}
+        ctx.case("pool/" + stratum, inp, sig=("pool", json.dumps(events)))
+        if "e" in imp:
+            ctx.fail("num_const_pool_raises", inp, imp, "names and a number table")
+            continue
+        if not line.startswith("N "):
+            ctx.corr_break("constnames:run_events", inp, imp["names"][:4], line[:200])
+            continue
+        if not line.endswith("ok=1"):
+            ctx.corr_break("constnames:event_okb(generator left the spelling class)", inp, "generated", line[-40:])
+        parts = [x.split() for x in line.split(" | ")]
+        m_names = [unhex(h) for h in parts[0][1:]]
+        m_layout = parts[1][1:]
+        m_slots = parts[2][1:]
+        m_vals = parts[3][1:]
+        # ---- tie: names, layout, resolution
+        if m_names != imp["names"]:
+            k = next((i for i, (a, b) in enumerate(zip(m_names, imp["names"])) if a != b), None)
+            ctx.corr_break("constnames:new_num_const_cname/unique_const_cname", inp,
+                           {"event": k, "name": imp["names"][k] if k is not None else imp["names"]},
+                           m_names[k] if k is not None else m_names)
+        lay = []
+        for (nm, slot), init in zip(imp["order"], imp["table"]):
+            if init is None:
+                lay.append("%s=?" % hexs(nm))
+            elif init[0] == "F":
+                lay.append("%s=F%s" % (hexs(nm), hexs(init[1])))
+            elif init[0] == "C":
+                lay.append("%s=C%d:%d" % (hexs(nm), init[1], int(init[2], 16)))
+            elif init[0] == "X":
+                lay.append("%s=X%s" % (hexs(nm), hexs(init[1])))
+            else:
+                lay.append("%s=%s" % (hexs(nm), init))
+        if [sl for _, sl in imp["order"]] != list(range(len(imp["order"]))):
+            ctx.corr_break("constnames:layout(#define slot numbering)", inp, imp["order"][:6], "slots 0..n-1 in order")
+        if lay != m_layout:
+            k = next((i for i, (a, b) in enumerate(zip(lay, m_layout)) if a != b), min(len(lay), len(m_layout)))
+            ctx.corr_break("constnames:layout(generate_num_constants)", inp,
+                           {"slot": k, "impl": lay[k:k + 1], "n": len(lay)}, {"model": m_layout[k:k + 1], "n": len(m_layout)})
+        if [("-" if x is None else str(x)) for x in imp["slots"]] != m_slots:
+            ctx.corr_break("constnames:resolve(#define lookup)", inp, imp["slots"], m_slots)
+        # ---- property: distinct keys never share a C name; a key keeps its name; every int
+        #      constant reads, through its #define and slot initialiser, the value of its spelling
+        seen = {}
+        for i, (ev, nm) in enumerate(zip(events, imp["names"])):
+            if ev[0] != "R":
+                continue
+            key = (ev[1], ev[2])
+            for key2, (j, nm2) in seen.items():
+                if (key2 == key) != (nm2 == nm):
+                    ctx.fail(classify_pool(events, i, j), {"events": events, "first": j, "second": i},
+                             {"names": [nm2, nm]}, "same name exactly for the same (text, type) key")
+                    break
+            seen.setdefault(key, (i, nm))
+            if ev[1] != "f":
+                want = int(ev[2], 0)          # the spellings are hex(v) / str(v) texts
+                got = imp["values"][i]
+                if want is not None and got != ["int", hex(want)]:
+                    ctx.fail(classify_pool(events, i), {"events": events, "request": i, "text": ev[2]},
+                             {"slot": imp["slots"][i], "value": got}, ["int", hex(want)],
+                             note="value read through '#define %s numbertab[i]' (last definition) and the slot initialiser" % nm[:60])
+                if want is not None and m_vals[i] != str(want):
+                    ctx.corr_break("constnames:const_value", {"events": events, "request": i}, got, m_vals[i][:80])
+            else:
+                got = imp["values"][i]
+                if got != ["F", ev[2]]:
+                    ctx.fail(classify_pool(events, i), {"events": events, "request": i, "text": ev[2]},
+                             {"slot": imp["slots"][i], "value": got}, ["F", ev[2]],
+                             note="float slot initialiser must be the value code of this very constant")
+
+
+def big_exprs(rng, quick):
+    """constant expressions for ONE module: many large int / long float constants whose emitted
+    spellings share their first and last 18 characters, on both sides of the 42-character limit"""
+    E = []
+    def add(st, t):
+        E.append((st, t))
+    for b in (144, 148, 152, 156, 160, 164, 200, 204, 256, 512, 1024):
+        add("lit/big/pow2", "2**%d" % b)
+        add("lit/big/pow2", "1 << %d" % (b + 4))
+        add("lit/big/pow2", "-(2**%d)" % b)
+        add("lit/big/pow2", "-(1 << %d)" % (b + 4))
+        add("lit/big/pow2", str(1 << b))
+        add("lit/big/pow2", "-0x1%s" % ("0" * (b // 4 + 2)))
+    add("tuple/big", "(2**256, 2**512, -2**256, 2**256)")
+    add("tuple/big", "(1 << 200, (1 << 204, 1 << 208), 1 << 200)")
+    for nd, neg in [(39, 0), (40, 0), (41, 0), (42, 0), (35, 1), (36, 1), (37, 1), (38, 1), (64, 0), (64, 1), (300, 0)]:
+        base = hex_text(rng, nd, bool(neg))
+        for where in ("mid", "head", "head+1", "tail", "tail-1"):
+            for t in family(rng, "i", base, 2 if quick else 4, where):
+                v = int(t, 16)
+                form = rng.choice(["hex", "dec", "oct", "fold"])
+                txt = {"hex": t, "dec": str(v), "oct": ("-" if v < 0 else "") + oct(abs(v)),
+                       "fold": "%s0x%x * 0x%x + 0x%x" % ("-" if v < 0 else "", abs(v) >> 8, 256, abs(v) & 255) if v > 0 else t}[form]
+                add("lit/big/family-%s" % where, txt)
+    # upstream tests/run/large_integer_T5290.py shape: decimal literals differing in the middle
+    d = dec_text(rng, 120)
+    for t in family(rng, "i", d, 3, "mid"):
+        add("lit/big/decimal", t)
+        add("lit/big/decimal", "-" + t)
+    # long float literals
+    z = "0." + "0" * 43
+    for t in [z + "15", z + "015", z + "0015", "-" + z + "15", z + "15e+300", z + "15e-300", z + "15e300",
+              "1." + "0" * 45 + "1e5", "1." + "0" * 46 + "1e5", "1." + "0" * 45 + "1e-5"]:
+        add("fold/float/long-literal", t)
+    f = "3." + dec_text(rng, 58)
+    for t in family(rng, "f", f, 3, "mid"):
+        add("fold/float/long-literal", t)
+    return E
+
+
+# ------------------------------------------------------------------------------------------------
 # direct worker (pure-Python parts of the compiler, repo sources forced by pyload)
 # ------------------------------------------------------------------------------------------------
 DIRECT = r'''
@@ -480,20 +807,157 @@ def ev(f, *a):
 UN = {"+": operator.pos, "-": operator.neg, "~": operator.inv, "not": operator.not_}
 out["fold2"] = [[guard(lambda: fold2(op, a, b)), ev(OPS[op], pyv(a), pyv(b))] for op, a, b in spec["fold2"]]
 out["fold1"] = [[guard(lambda: fold1(op, a)), ev(UN[op], pyv(a))] for op, a in spec["fold1"]]
+# ---- numeric-constant pool: names, #defines, slot initialisers (real GlobalState methods on a bare instance) ----
+import collections
+from Cython.Compiler import Naming
+class _W:
+    def __init__(s): s.lines = []
+    def putln(s, t="", safe=False): s.lines.append(t)
+    def put(s, t): s.lines.append(t)
+    def error_goto_if_null(s, *a): return "GOTOIFNULL"
+    def error_goto(s, *a): return "GOTO"
+    def name_in_main_c_code_module_state(s, n): return n
+class _G(Code.GlobalState):
+    def __init__(s):
+        s.parts = collections.defaultdict(_W)
+        s.num_const_index = {}
+        s.const_cnames_used = {}
+        s.module_pos = None
+
+def _cstr(text):
+    # adjacent C string literals -> the characters (only \ooo escapes and plain ASCII occur here)
+    body = "".join(re.findall(r'"((?:[^"\\]|\\.)*)"', text))
+    return re.sub(r"\\([0-7]{3})", lambda m: chr(int(m.group(1), 8)), body)
+
+def _access(expr, i, arrays):
+    # (i < N ? ARR[i - K] : REST)  |  ARR[i - K]
+    expr = expr.strip()
+    m = re.fullmatch(r"\(i < (\d+) \? (\w+)\[i - (\d+)\] : (.*)\)", expr)
+    if m:
+        if i < int(m.group(1)):
+            return m.group(2), arrays[m.group(2)][i - int(m.group(3))]
+        return _access(m.group(4), i, arrays)
+    m = re.fullmatch(r"(\w+)\[i - (\d+)\]", expr)
+    return m.group(1), arrays[m.group(1)][i - int(m.group(2))]
+
+def _interpret(g):
+    """what the generated C does: slot -> initialiser, macro name -> slot (a later #define wins)"""
+    tab = Naming.numbertab_cname
+    defines, order = {}, []
+    for ln in g.parts['constant_name_defines'].lines:
+        m = re.fullmatch(r"#define (\w+) %s\[(\d+)\]" % re.escape(tab), ln)
+        if not m:
+            raise ValueError("define line %r" % ln)
+        defines[m.group(1)] = int(m.group(2))
+        order.append([m.group(1), int(m.group(2))])
+    table, arrays, etypes = {}, {}, {}
+    offset, count, cstring = 0, 0, None
+    for ln in g.parts['init_constants'].lines:
+        m = re.fullmatch(r"PyObject \*\*numbertab = %s(?: \+ (\d+))?;" % re.escape(tab), ln)
+        if m:
+            offset = int(m.group(1) or 0); arrays = {}; cstring = None
+            continue
+        m = re.fullmatch(r"(double|int\d+_t) const (\w+)\[\] = \{(.*)\};", ln)
+        if m:
+            arrays[m.group(2)] = m.group(3).split(","); etypes[m.group(2)] = m.group(1)
+            continue
+        m = re.fullmatch(r"const char\* c_constant = (.*);", ln, re.S)
+        if m:
+            cstring = _cstr(m.group(1)).split("\0")
+            continue
+        m = re.fullmatch(r"for \((?:int|Py_ssize_t) i = 0; i < (\d+); i\+\+\) \{", ln)
+        if m:
+            count = int(m.group(1))
+            continue
+        m = re.fullmatch(r"numbertab\[i\] = (\w+)\((.*)\);", ln)
+        if m:
+            func, arg = m.group(1), m.group(2)
+            for i in range(count):
+                if func == "PyFloat_FromDouble":
+                    arr, v = _access(arg.replace("c_constants[i]", "c_constants[i - 0]"), i, arrays)
+                    table[offset + i] = ["F", v]
+                elif func in ("PyLong_FromLong", "PyLong_FromLongLong"):
+                    arr, v = _access(arg, i, arrays)
+                    bits = int(re.fullmatch(r"int(\d+)_t", etypes[arr]).group(1))
+                    vv = int(v.rstrip("L"))
+                    if not (-(1 << (bits - 1)) <= vv < (1 << (bits - 1))) or (func == "PyLong_FromLong" and bits > 32):
+                        table[offset + i] = ["OVERFLOW", v, bits, func]
+                    else:
+                        table[offset + i] = ["C", bits // 8, hx(vv)]
+                elif func == "PyLong_FromString" and arg == "c_constant, &end_pos, 32":
+                    table[offset + i] = ["X", cstring[i]]
+                else:
+                    raise ValueError("init line %r" % ln)
+    return defines, order, table
+
+def pool_scenario(events):
+    g = _G()
+    names = []
+    for ev in events:
+        if ev[0] == "R":
+            if ev[1] == "f":
+                names.append(g.get_float_const(ev[2], ev[2]).cname)
+            else:
+                names.append(g.get_int_const(ev[2], "L" if ev[1] == "l" else "").cname)
+        else:
+            names.append(g.unique_const_cname(ev[2] + ("{sep}" if ev[1] else "") + "{counter}" + ev[3]))
+    g.generate_num_constants()
+    defines, order, table = _interpret(g)
+    slots, values = [], []
+    for ev, nm in zip(events, names):
+        if ev[0] != "R":
+            slots.append(None); values.append(None); continue
+        i = defines.get(nm)
+        slots.append(i)
+        init = table.get(i)
+        if init is None:
+            values.append(["NOSLOT"])
+        elif init[0] == "X":
+            values.append(["int", hx(int(init[1], 32))])     # PyLong_FromString(.., 32)
+        elif init[0] == "C":
+            values.append(["int", init[2]])
+        else:
+            values.append(init)
+    return {"names": names, "order": order, "table": [table.get(i) for i in range(len(table))],
+            "slots": slots, "values": values}
+
+def pool_guard(events):
+    try:
+        return pool_scenario(events)
+    except BaseException as e:
+        import traceback
+        return {"e": type(e).__name__, "m": traceback.format_exc()[-600:]}
+out["pools"] = [pool_guard(evs) for evs in spec.get("pools", [])]
+_src = inspect.getsource(Code.GlobalState.new_num_const_cname)
+out["name_consts"] = {"int": Naming.interned_prefixes['int'], "float": Naming.interned_prefixes['float'],
+                      "limit": re.findall(r"len\(value\) > (\d+)", _src),
+                      "head": re.findall(r"value\[:(\d+)\]", _src), "tail": re.findall(r"value\[-(\d+):\]", _src)}
 print(json.dumps(out))
 '''
 
 
 class Batch:
-    """all model queries of the direct part in one runner process (its start-up computes 10^4300)"""
+    """all model queries of the direct part; the runner's start-up computes 10^4300, and the literal /
+    emission queries on thousands of bits dominate the wall time, so the lines are dealt round-robin
+    to a few runner processes that work while the direct worker runs"""
+    WORKERS = 4
     def __init__(self, model):
-        self.model, self.q, self.parts, self.res = model, [], {}, None
+        self.model, self.q, self.parts, self.res, self.futs = model, [], {}, None, None
     def add(self, name, lines):
         self.parts[name] = (len(self.q), len(lines))
         self.q += lines
+    def start(self):
+        import concurrent.futures as cf
+        ex = cf.ThreadPoolExecutor(self.WORKERS)
+        self.futs = [ex.submit(self.model.batch, self.q[i::self.WORKERS]) for i in range(self.WORKERS)]
+        ex.shutdown(wait=False)
     def get(self, name):
         if self.res is None:
-            self.res = self.model.batch(self.q)
+            if self.futs is None:
+                self.start()
+            self.res = [None] * len(self.q)
+            for i, f in enumerate(self.futs):
+                self.res[i::self.WORKERS] = f.result()
         a, n = self.parts[name]
         return self.res[a:a + n]
 
@@ -792,8 +1256,22 @@ def run(ctx):
         sys.set_int_max_str_digits(old_limit)
 
 
+_T0 = [None]
+
+
+def _tick(label):
+    """C09_TIMING=1: wall-clock of the phases on stderr (development aid)"""
+    if os.environ.get("C09_TIMING"):
+        import time
+        now = time.time()
+        if _T0[0] is not None:
+            sys.stderr.write("[C09 timing] %-28s %6.1f s\n" % (label, now - _T0[0]))
+        _T0[0] = now
+
+
 def _run(ctx):
     quick = ctx.tier == "quick"
+    _tick("start")
     rng = ctx.rng
     model = ctx.model("consts")
 
@@ -884,8 +1362,12 @@ def _run(ctx):
         fold2 = keep + rng.sample(rest, 1200)
     fold1 = [[u, a] for u in ["+", "-", "~", "not"] for a in lits if not (u == "-" and a not in "TF")]
 
+    # ---------------- (a) direct: names and slots of pooled numeric constants ----------------
+    scen = pool_scenarios(rng, quick)
+    names_model = ctx.model("constnames")
+
     spec = {"s2n": [x[2] for x in s2n_in], "lit": [x[1] for x in s2n_in], "pyint": pyint_in, "ints": [hex(v) for v in evals],
-            "pairs": pairs, "scalareq": sc_pairs, "fold2": fold2, "fold1": fold1}
+            "pairs": pairs, "scalareq": sc_pairs, "fold2": fold2, "fold1": fold1, "pools": [ev for _, ev in scen]}
     B = Batch(model)
     B.add("s2n", ["s2n %s" % hexs(x[2]) for x in s2n_in])
     B.add("lit", ["lit %s" % hexs(x[1]) for x in s2n_in])
@@ -901,12 +1383,22 @@ def _run(ctx):
     B.add("scalareq", ["scalareq %s %s" % (tok_scalar(a), tok_scalar(b)) for a, b in sc_pairs])
     B.add("fold2", ["fold2 %s %s %s" % (op, a, b) for op, a, b in fold2])
     B.add("fold1", ["fold1 %s %s" % (op, a) for op, a in fold1])
+    B.start()
+    _tick("generate direct inputs")
     r = cybuild.run_script(DIRECT, ctx.workdir, spec, timeout=1500, name="c09_direct.py")
+    _tick("direct worker")
     out = r["json"]
     if r["rc"] != 0 or not isinstance(out, dict):
         ctx.corr_break("direct worker", "c09_direct.py", (r["err"] or r["out"])[-1500:], "runs")
         return
 
+    B.get("s2n")
+    _tick("model batch (consts)")
+    # --- names / #defines / slots of the numeric-constant pool ---
+    mres = names_model.batch(["consts"] + ["pool 1 " + " ".join(w for ev in evs for w in ev_tokens(ev)) for _, evs in scen])
+    check_pools(ctx, scen, out["pools"], mres[1:], out["name_consts"], mres[0])
+
+    _tick("pool scenarios (model+compare)")
     # --- str_to_number: impl vs model (tie), impl vs CPython literal value (oracle) ---
     m1 = B.get("s2n")
     m2 = B.get("lit")
@@ -1014,30 +1506,37 @@ def _run(ctx):
     for (op, a), (imp, orc), line in zip(fold1, out["fold1"], mr):
         check_fold(ctx, "fold/unop", [op, a], imp, orc, line)
 
+    _tick("direct comparisons")
     # ---------------- (b) compiled modules ----------------
     exprs = gen_exprs(rng, quick)
     nmod = 4 if quick else 12
     chunks = [exprs[i::nmod] for i in range(nmod)]
+    # one more module: many large constants with shared leading / trailing spelling characters
+    chunks.append(big_exprs(rng, quick))
+    nmod += 1
     import concurrent.futures as cf
-    with cf.ThreadPoolExecutor(max_workers=min(nmod, 6)) as ex:
+    # negative literals and folded negatives beyond 4300 decimal digits: one module each (a compiler
+    # crash must not hide the other cases)
+    h = hex((1 << 15000) + 0xABCDEF)
+    negs = [("c09neg1", "-" + h, "literal"), ("c09neg2", "0 - " + h, "folded"), ("c09neg3", "-(" + h + " + 1)", "folded")]
+    with cf.ThreadPoolExecutor(max_workers=min(nmod + len(negs), 8)) as ex:
         futs = [ex.submit(build_and_compare, ctx, "c09m%d" % i, ch, model) for i, ch in enumerate(chunks)]
+        nfuts = [ex.submit(build_and_compare, ctx, nm, [("lit/neg-huge", text)], model) for nm, text, _ in negs]
         for i, f in enumerate(futs):
             err = f.result()
             if err is not None:
                 ctx.corr_break("module c09m%d" % i, "c09m%d" % i, str(err[1])[-1500:], "builds and runs")
-    # negative literals and folded negatives beyond 4300 decimal digits: one module each (a compiler
-    # crash must not hide the other cases)
-    h = hex((1 << 15000) + 0xABCDEF)
-    for nm, text, via in [("c09neg1", "-" + h, "literal"), ("c09neg2", "0 - " + h, "folded"),
-                          ("c09neg3", "-(" + h + " + 1)", "folded")]:
-        ctx.case("module/lit/neg-huge", text[:40] + "...", sig=("neghuge", nm))
-        err = build_and_compare(ctx, nm, [("lit/neg-huge", text)], model)
-        if err is not None:
-            if err[0] == "build" and err[1].stage == "cython-crash" and "Exceeds the limit" in err[1].detail:
-                ctx.fail("neg_int_over_4300_digits_crash", {"expr": text[:60] + "...(15000 bits)", "via": via},
-                         "compiler raises ValueError (int -> str conversion limit)", "module builds; value as in CPython")
-            else:
-                ctx.corr_break("module " + nm, nm, str(err[1])[-1500:], "builds and runs")
+        _tick("compiled modules")
+        for (nm, text, via), f in zip(negs, nfuts):
+            ctx.case("module/lit/neg-huge", text[:40] + "...", sig=("neghuge", nm))
+            err = f.result()
+            if err is not None:
+                if err[0] == "build" and err[1].stage == "cython-crash" and "Exceeds the limit" in err[1].detail:
+                    ctx.fail("neg_int_over_4300_digits_crash", {"expr": text[:60] + "...(15000 bits)", "via": via},
+                             "compiler raises ValueError (int -> str conversion limit)", "module builds; value as in CPython")
+                else:
+                    ctx.corr_break("module " + nm, nm, str(err[1])[-1500:], "builds and runs")
+    _tick("neg-huge modules")
 
 
 def classify_int(v):
